@@ -145,9 +145,16 @@ def run(ctx):
     for i, p in enumerate(prints):
         a0 = p.value.args[0]
         txt = norm(a0)
-        m = re.match(r"^'%d' % len\((\w+)\)$", txt) or re.match(r"^len\((\w+)\)$", txt)
-        if m:
-            cname = m.group(1)
+        lenarg = None
+        a1 = a0
+        if isinstance(a1, ast.BinOp) and isinstance(a1.op, ast.Mod) and isinstance(a1.left, ast.Constant) and a1.left.value in ('%d', '%i', '%s'):
+            a1 = a1.right.elts[0] if isinstance(a1.right, ast.Tuple) and len(a1.right.elts) == 1 else a1.right
+        if isinstance(a1, ast.Call) and dotted(a1.func) in ('str', 'int') and len(a1.args) == 1:
+            a1 = a1.args[0]
+        if isinstance(a1, ast.Call) and dotted(a1.func) == 'len' and len(a1.args) == 1:
+            lenarg = a1.args[0]
+        if lenarg is not None:
+            cname = norm(lenarg)
             # the next counted loop after this print must have trip len(cname)
             nxt = [l for l in loops if l[0].lineno > p.lineno]
             if cname == 'depvarkeys' or (nxt and nxt[0][1] is not None):
@@ -458,6 +465,42 @@ def run(ctx):
                               'for a code with more digits the declared and the filled value differ and no cell reads back as missing' % (
                                   how, sig, ', integer part only' if sig == 0 else '', fmt0, data_sig)))
     ctx.assumptions.append('missing-value codes have at most as many significant digits as the data format writes (%s)' % fmt0)
+    # ---- R-MISSPARSE: the reader parses the scale and missing-code entries with a function that accepts what the writer emits
+    ctx.rule('R-MISSPARSE', 'reader: the entries of the scale and missing-code lines are parsed with a function that accepts the decimal text the writer emits')
+    rdf = mod.func('ffi1001.__init__')
+    nparse = 0
+    for st in iter_stmts(rdf.body):
+        if not (isinstance(st, ast.If) and isinstance(st.test, ast.Compare) and isinstance(st.test.left, ast.Name) and st.test.left.id == 'li'
+                and isinstance(st.test.comparators[0], ast.Name) and st.test.comparators[0].id in ('SCALE_LINE', 'MISSING_LINE')):
+            continue
+        which = st.test.comparators[0].id
+        for s2 in st.body:
+            if not (isinstance(s2, ast.Assign) and isinstance(s2.value, (ast.ListComp, ast.Call))):
+                continue
+            v = s2.value
+            conv = None
+            if isinstance(v, ast.ListComp) and isinstance(v.elt, ast.Call):
+                conv = dotted(v.elt.func)
+            elif isinstance(v, ast.Call) and dotted(v.func) in ('list', 'map') and v.args:
+                inner = v.args[0] if dotted(v.func) == 'list' else v
+                if isinstance(inner, ast.Call) and dotted(inner.func) == 'map' and inner.args:
+                    conv = dotted(inner.args[0])
+            if conv is None:
+                continue
+            nparse += 1
+            wrd = 'src/PseudoNetCDF/%s ffi1001.__init__' % RP
+            if conv in ('int', 'np.int32', 'np.int64', 'np.int_'):
+                if which == 'MISSING_LINE' and sig == 0:
+                    ctx.ok('R-MISSPARSE', which, wrd, 'integer parse of a code the writer formats as an integer')
+                else:
+                    ctx.violation(Finding('R-MISSPARSE', RP, 'ffi1001.__init__', s2,
+                                          "the %s entries are parsed with %s(), which raises on decimal text: the writer emits %s of the value, '-999.0' or '1e+30' for a float "
+                                          "code, so the library cannot re-open its own output" % (which, conv, how if which == 'MISSING_LINE' else 'a numeric literal')), oid=which)
+            elif conv in ('eval', 'float', 'np.float64', 'np.float32', 'literal_eval', 'ast.literal_eval', 'np.float_'):
+                ctx.ok('R-MISSPARSE', which, wrd, '%s() accepts integer and decimal literals' % conv)
+            else:
+                ctx.undec('R-MISSPARSE', which, wrd, 'parser %s not in the table' % conv)
+    ctx.floor('scale / missing-code parsers judged by R-MISSPARSE', nparse, 2)
     # ---- R-PRECISION
     tf = [c for c in walk_expr(data_loop) if isinstance(c, ast.Call) and isinstance(c.func, ast.Attribute) and c.func.attr == 'tofile']
     fmt = const_str(kw(tf[0], 'format')) if tf and kw(tf[0], 'format') is not None else None
